@@ -73,7 +73,8 @@ CFG = {
         'C13_no_panic and C13_reads_declared (rest is a suffix, value independent of it, shorter input is EOF) are proved in full for every byte string',
         'C13_32_partial: ok => BitmapWF is proved modulo ONE named kernel hypothesis, Kernel.runStore_wf (replaying any run list through Store::insert_range from with_capacity and ensure_correct_store gives a WF store or the empty array); header, array chunks (sortedness, 16-bit, 1..4096), bitset chunks (1024 words < 2^64, cached len = popcount > 4096), key order and emptiness are proved. The hypothesis is checked at run time (wf= / !WF) on every decoded stream',
         "the corollary 'every observer of a WF value is consistent' rests on C01/C03/C04/C07 (other families)",
-        'the RoaringTreemap decoder is handled by the treemap family',
+        'RoaringTreemap::deserialize_from: C13_t_no_panic, C13_t_reads_declared and the lifting step C13_64_lift (if the checked 32-bit decoder only returns wf32 values, the checked treemap decoder only returns values with strictly ascending u32 keys whose partitions are wf32 and not the empty bitmap, the rest is a suffix, no panic) are proved in full for every byte string; C13_64_partial instantiates it with BitmapWF and inherits the single 32-bit hypothesis Kernel.runStore_wf. The loop counter is the declared u64 count itself (structural recursion, no fuel): a count larger than the data ends in eof',
+        'accepted-but-not-conformant 64-bit streams (descending / repeated bucket keys: the map sorts them, a repeated key keeps the later bucket) yield well-formed values; C13 allows that outcome, it is pinned in corpus/C13/t-key-order.ops',
     ],
     "level_text": "Lean 4 theorems over the model of the checked decoder: for every byte string the result is an error or a "
                   "well-formed value together with a suffix of the input (never a panic, never a read past the declared "
@@ -81,6 +82,6 @@ CFG = {
                   "streams and random byte strings, with a property oracle that tolerates a stricter implementation.",
     "level_note": "Trusted: Lean kernel; WF (Lemmas/CodecWF.lean) as the meaning of 'well-formed set'; model mirrors "
                   "serialization.rs (correspondence only); the harness-side observer check `consistent()` as the reading of "
-                  "'every observer agrees'. 32-bit half only.",
+                  "'every observer agrees'.",
 }
 CFG["targets"] = {k: v for k, v in CFG["targets"].items() if v}
